@@ -71,7 +71,7 @@ REGISTRY = {
         "title": "range queries",
         "teq": [seq({"seedoff": 14}), seq({"seedoff": 114, "focus": 1, "n": 6, "ops": 60}, {"focus": 1, "seedoff": 114})],
         "nontrivial_rule": "as C01; range queries with empty/extreme/inverted bounds, prefixes and limits 0,1,2,1000 are part of every sequence; a second stream (focus=1, TTL stores) makes a third of the calls range queries with limits 1..5 over key sets where about a third of the inserts are expired on arrival, so skipped index entries interact with the limit",
-        "assumptions": ["crossbeam_skiplist::SkipMap iteration is modelled as the sorted binding list", "the concurrent clauses are not decided by this check"],
+        "assumptions": ["sequentially crossbeam_skiplist::SkipMap iteration is modelled as the sorted binding list; concurrently (Model/Scan.v) lower_bound / Entry::next are assumed linearizable: each returns the node with the least key >= start / > the entry's key among the nodes linked at some instant of the call; an unlinked node's slot keeps its last record", "between two H10 points the scan performs one skip-list call or one slot load; writers' calls are atomic in the model (their own interleavings are C07's subject)"],
     },
     "C02": {
         "title": "acknowledged data survives any later crash",
@@ -326,6 +326,11 @@ REGISTRY["C13"]["teq"].append({"engine": "conc", "quick": {"n": 24, "mode": "mem
 REGISTRY["C12"]["teq"].append(seq({"only": "limited", "autocheck": 1, "n": 6, "ops": 80, "seedoff": 212}, {"only": "limited", "autocheck": 1, "seedoff": 212}))
 REGISTRY["C13"]["teq"].append(seq({"only": "limited", "n": 10, "ops": 80, "seedoff": 113}, {"only": "limited", "seedoff": 113}))
 REGISTRY["C11"]["teq"].append(_f1(11))
+REGISTRY["C14"]["teq"].append({"engine": "scansched", "quick": {"n": 40, "seedoff": 314}, "thorough": {"n": 1500, "seedoff": 314},
+                                "oracle": True, "mismatch_is_failure": True, "timeout": 3400,
+                                "nontrivial": lambda case, res: case.count(" S") >= 3 and (" D" in case.split(" S", 1)[-1] or " P" in case.split(" S", 1)[-1]) and res != "",
+                                "distinct_key": lambda case, res: case,
+                                "what": "T-sched for Model.Scan (hook H10): a thread running range_query is parked before lower_bound, at the top of every loop iteration and before every entry.next() while the controlling thread inserts, replaces, deletes and re-creates keys (visible and expired-on-arrival) under and around the cursor; memory-only and persistent stores, TTL on/off, random bounds and limits 0..5 or unbounded. The executed event sequence is replayed by the extracted Model.Scan.wstep and the query's result must equal the model's. Oracle independent of the model: strictly ascending, inside bounds and limit, every value one written to its key, no key absent throughout, every untouched visible key present unless the limit cut the scan"})
 REGISTRY["C11"]["teq"].append({"engine": "sweepsched", "quick": {"n": 25, "seedoff": 311}, "thorough": {"n": 600, "seedoff": 311},
                                 "oracle": True, "mismatch_is_failure": True, "timeout": 3400,
                                 "nontrivial": lambda case, res: " X" in case and "removed=0" not in res, "distinct_key": lambda case, res: case,
